@@ -1,5 +1,6 @@
 CONSTANTS P = 103  A = 0  B = 5  Gx = 2  Gy = 42  N = 97  Mode = "sign"  RMax = 0
-CONSTANT ESet <- EAll
+CONSTANT ESet <- ETwo
+CONSTANT SSet <- SAll
 CONSTANT DSet <- DAll
 SPECIFICATION Spec
 INVARIANT Holds
